@@ -1,10 +1,10 @@
 package main
 
 import (
-	"go/types"
 	"bytes"
 	"context"
 	"fmt"
+	"go/types"
 	"os"
 	"os/exec"
 	"path/filepath"
@@ -17,19 +17,19 @@ import (
 )
 
 type FnResult struct {
-	Fn          string
-	Obls        []*Obligation
-	Notes       []string
-	Unsupported []string
-	Background  string // prelude + declarations + assertions
-	CoverOK     bool
-	CoverAnswer string
-	HasContract bool
+	Fn             string
+	Obls           []*Obligation
+	Notes          []string
+	Unsupported    []string
+	Background     string // prelude + declarations + assertions
+	CoverOK        bool
+	CoverAnswer    string
+	HasContract    bool
 	NewLoopHelpers []string // exempted new helpers with loops this function's obligations were generated through
-	SolverSecs  float64
-	RetReach    string
-	frame       *Frame
-	query       *Query
+	SolverSecs     float64
+	RetReach       string
+	frame          *Frame
+	query          *Query
 }
 
 // verifyFn generates the obligations of one function against its contract (if any).
@@ -255,21 +255,25 @@ func (q *Query) background(n int) string {
 // ---------- discharging ----------
 
 type Tier struct {
-	Name        string
-	BatchMS     int // per-check timeout inside the incremental batch
-	SingleS     int // timeout for individually raced leftovers
-	CrossCheck  bool
-	Seed        int
-	Parallel    int
-	NoModels    bool
+	Name         string
+	BatchMS      int // per-check timeout inside the incremental batch
+	SingleS      int // timeout for individually raced leftovers
+	CrossCheck   bool
+	Seed         int
+	Parallel     int
+	NoModels     bool
 	LiteSatFinal func(o *Obligation) bool // obligations for which a counter-model of the quantifier-free part settles the question
-	BatchOnly   bool
-	LiteOnly    bool
-	Skip        func(o *Obligation) bool // obligations for which the expensive one-shot/model stage is not wanted
+	BatchOnly    bool
+	LiteOnly     bool
+	Skip         func(o *Obligation) bool // obligations for which the expensive one-shot/model stage is not wanted
 }
 
-func quickTier(seed int) Tier    { return Tier{Name: "quick", BatchMS: 1500, SingleS: 10, Seed: seed, Parallel: 16} }
-func thoroughTier(seed int) Tier { return Tier{Name: "thorough", BatchMS: 10000, SingleS: 60, CrossCheck: true, Seed: seed, Parallel: 16} }
+func quickTier(seed int) Tier {
+	return Tier{Name: "quick", BatchMS: 1500, SingleS: 10, Seed: seed, Parallel: 16}
+}
+func thoroughTier(seed int) Tier {
+	return Tier{Name: "thorough", BatchMS: 10000, SingleS: 60, CrossCheck: true, Seed: seed, Parallel: 16}
+}
 
 type batchSolver struct {
 	name string
